@@ -168,7 +168,7 @@ def r_configs(tier):
         out += [cf(2, 2, True, 100, "E0", "tiny"), cf(2, -1, 2, "DYN", "E0", "dur"), cf(2, 3, 3, 100, "Arel", "args"),
                 cf(2, 2, True, 100, "E0", "size"), cf(2, 2, 2, 100, "E0", "pad"),
                 cf(2, 2, 1, 100, "E0", "small"),                        # disabled by cache < n
-                cf(3, -1, 3, 100, "E0", "args"), cf(3, 2, 4, "DYN", "E0", "size"),
+                cf(3, -1, 3, 100, "E0", "args"),
                 cf("I3", 2, True, 100, "E0", "tiny")]                 # cache ignored for INDEFINITE
     else:
         for loops in (2, 3, -1):
@@ -366,6 +366,8 @@ def i_judge(p, op):
 
 
 def i_ops(alpha="full"):
+    if alpha == "fixed-terminal":
+        return [("next",), ("close",)] + [("seek", k) for k in (0, 2, 3)] + [("size", s) for s in ("A", "D")]
     if alpha == "quick":
         return ([("next",), ("close",), ("resize",)] + [("seek", k) for k in (0, 2, 3)]
                 + [("size", s) for s in ("A", "D")])
@@ -378,8 +380,8 @@ def i_configs(tier):
         return dict(style=style, spec=spec, cached=cached, repeat=repeat, size0=size0, alpha=alpha)
 
     if tier == "quick":
-        return [cf("block", "1.1", True, 2, "A"), cf("block", "1.1", 3, -1, "D"), cf("block", "1.1", 2, 2, "A"),
-                cf("kitty", "1.1+L", True, 2, "D"), cf("iterm2", "1.1+W", 4, -1, "A")]
+        return [cf("block", "1.1", True, 2, "A"), cf("block", "1.1", 3, -1, "D", "fixed-terminal"),
+                cf("kitty", "1.1+L", True, 2, "D", "fixed-terminal"), cf("iterm2", "1.1+W", 4, -1, "A", "fixed-terminal")]
     out = [cf("block", "1.1", True, 2, "A", "full"), cf("block", "1.1", True, -1, "D", "full"),
            cf("block", "1.1", 3, 3, "A", "full"), cf("kitty", "1.1+L", True, 2, "D", "full"),
            cf("iterm2", "1.1+W", True, 2, "A", "full")]
@@ -451,7 +453,7 @@ def run(ctx):
         fixpoint=True,
         part_R=dict(alphabets={k: v for k, v in M.PROFILES.items() if k in {c["profile"] for p, c in items if p == "R"}},
                     seek_offsets="-n-1 .. n+1 for START, CURRENT, END", configurations=[c for p, c in items if p == "R"]),
-        part_I=dict(ops=dict(quick=[list(o) for o in i_ops('quick')], full=[list(o) for o in i_ops('full')]), gif=f"{NFRAMES} frames {GIF_PX[0]}x{GIF_PX[1]} px",
+        part_I=dict(ops={a: [list(o) for o in i_ops(a)] for a in sorted({c['alpha'] for p, c in items if p == 'I'})}, gif=f"{NFRAMES} frames {GIF_PX[0]}x{GIF_PX[1]} px",
                     terminals=[list(T1), list(T2)], sizes=dict(A="width=2", B="3x1", D="Size.FIT (dynamic)"),
                     configurations=[c for p, c in items if p == "I"]),
     )
